@@ -126,7 +126,7 @@ func (m *MonC13) OnStepEnd(w *World, step int) {
 			}
 		}
 	}
-	if op.K == "ans" && strings.HasPrefix(op.S, "_EVQ.") && op.O == "ok" && !strings.HasPrefix(op.Key, "inject:") {
+	if op.K == "ans" && strings.HasPrefix(op.S, "_EVQ.") && (op.O == "ok" || (op.O == "err" && op.P == "system.notFound")) && !strings.HasPrefix(op.Key, "inject:") {
 		m.queryAnswerApplied(w, step, op)
 	}
 	if op.K != "qevent" {
